@@ -642,58 +642,55 @@ func checkHeapInterface(p *Prog, r *Report) {
 	r.Check(okGE, "R-HEAP.expiry", fnKey(ge)+": advertised expiry = minExpireTime(0) - now (+ slack)", p.pos(ge.Pos()), "reads the root's earlier deadline",
 		"the advertised time to the next expiry is not computed from the queue root's earlier deadline", true)
 	// with a non-empty queue every return is the computed duration or the MinExpiryTime clamp (never the idle default)
-	var nonEmpty *ssa.BasicBlock
+	// (whichever way the function is laid out - branch first, early return for the empty queue, one result variable and a
+	// single return - every value that can be returned on a way in on which the queue is known to be non-empty is the
+	// computed duration or the MinExpiryTime clamp)
+	isNonEmptyFact := func(f relFact) bool {
+		c, ok := f.X.(*ssa.Call)
+		if !ok || calleeName(&c.Call) != "(pkg/intermediate.TimeToExpirePriorityQueue).Len" {
+			return false
+		}
+		z, ok := constInt(f.Y)
+		if !ok {
+			return false
+		}
+		return (z == 0 && (f.Op == token.GTR || f.Op == token.NEQ)) || (z == 1 && f.Op == token.GEQ)
+	}
+	nNonEmpty := 0
+	bad := ""
 	eachInstr(ge, func(in ssa.Instruction) {
-		if i, ok := in.(*ssa.If); ok {
-			// Len() > 0, Len() != 0, Len() >= 1, or the complement on the other edge (Len() == 0 ... else), either operand order
-			for _, cf := range cmpForms(i.Cond) {
-				c, ok := cf.X.(*ssa.Call)
-				if !ok || calleeName(&c.Call) != "(pkg/intermediate.TimeToExpirePriorityQueue).Len" {
-					continue
+		rt, ok := in.(*ssa.Return)
+		if !ok {
+			return
+		}
+		for _, lf := range valueLeaves(retResult(rt, 0), in.Block(), 4) {
+			nonEmpty := false
+			for _, f := range lf.Facts {
+				if isNonEmptyFact(f) {
+					nonEmpty = true
 				}
-				z, ok := constInt(cf.Y)
-				if !ok {
-					continue
+			}
+			if !nonEmpty {
+				continue
+			}
+			nNonEmpty++
+			okV := false
+			if u, ok := lf.V.(*ssa.UnOp); ok {
+				if g, ok := u.X.(*ssa.Global); ok && g.Name() == "MinExpiryTime" {
+					okV = true
 				}
-				if (z == 0 && (cf.Op == token.GTR || cf.Op == token.NEQ)) || (z == 1 && cf.Op == token.GEQ) {
-					nonEmpty = i.Block().Succs[cf.Succ]
-				}
+			}
+			if b2, ok := lf.V.(*ssa.BinOp); ok && b2.Op == token.ADD {
+				okV = true
+			}
+			if !okV {
+				bad = p.instrPos(in)
 			}
 		}
 	})
-	if nonEmpty == nil {
+	if nNonEmpty == 0 {
 		r.Undecided("R-HEAP.expiry-clamp", fnKey(ge)+": non-empty queue branch", p.pos(ge.Pos()), "no 'queue.Len() > 0' test found")
 	} else {
-		bad := ""
-		seen := map[*ssa.BasicBlock]bool{}
-		var walk func(b *ssa.BasicBlock)
-		walk = func(b *ssa.BasicBlock) {
-			if seen[b] {
-				return
-			}
-			seen[b] = true
-			for _, in := range b.Instrs {
-				if rt, ok := in.(*ssa.Return); ok {
-					v := retResult(rt, 0)
-					okV := false
-					if u, ok := v.(*ssa.UnOp); ok {
-						if g, ok := u.X.(*ssa.Global); ok && g.Name() == "MinExpiryTime" {
-							okV = true
-						}
-					}
-					if b2, ok := v.(*ssa.BinOp); ok && b2.Op == token.ADD {
-						okV = true
-					}
-					if !okV {
-						bad = p.instrPos(in)
-					}
-				}
-			}
-			for _, s := range b.Succs {
-				walk(s)
-			}
-		}
-		walk(nonEmpty)
 		// the clamp: negative => MinExpiryTime
 		clamp := false
 		eachInstr(ge, func(in ssa.Instruction) {
